@@ -34,7 +34,7 @@ def run(rep, tier):
     common.guarded(rep, "C04.7", c04.c04_7, rep, ix)
     # whether the included program is a template is decided from its reported parameters: the p-type filter drops exactly p<digits> names
     from . import c15
-    common.guarded(rep, "C15.1", c15.c15_1, rep, ix)
+    common.guarded(rep, "C15.1", c15.c15_1, rep, ix, True)
     # the included file is loaded as a program of its own: nothing of it stays in the module tables of the including load, and it sees none of them
     from . import c05
     from ..gram import model as gm
@@ -99,28 +99,40 @@ def c07_1(rep, ix):
     rep.check(okc, R, ix.site(f), "the nested listener is constructed with cwd = dirname(<path of the included file>)", key="include|nested cwd")
     # constructor
     init = ix.func("listener.BlackbirdListener.__init__")
-    st = [n for n in walk_shallow(init.node) if isinstance(n, ast.Assign) and u(n.targets[0]) == "self._cwd"]
-    direct = [n for n in st if n in init.node.body and isinstance(n.value, ast.Name) and n.value.id == "cwd"]
+    # decided on the two models of the argument (a directory was given / none was given): what the constructor leaves in self._cwd
+    def final_cwd(model):
+        env = {}
 
-    def cond_form(v):
-        """cwd if cwd is not None else os.getcwd()  (either orientation)"""
-        if not isinstance(v, ast.IfExp):
-            return False
-        t, a, b = " ".join(u(v.test).split()), u(v.body), u(v.orelse)
-        return (t in ("cwd is None", "cwd == None", "not cwd") and (a, b) == ("os.getcwd()", "cwd")) or (t in ("cwd is not None", "cwd != None", "cwd") and (a, b) == ("cwd", "os.getcwd()"))
-    if not direct and len(st) == 1 and st[0] in init.node.body and cond_form(st[0].value):
-        direct = list(st)          # one conditional expression: the given directory, or the working directory when none was given
-    rep.check(len(direct) == 1, R, ix.site(init), "self._cwd is bound to the constructor argument cwd", key="init|cwd")
-    for n in st:
-        if n in direct:
-            continue
-        # any other binding must be os.getcwd() under `if cwd is None`
-        guarded = False
-        for s in init.node.body:
-            if isinstance(s, ast.If) and n in s.body and u(s.test) in ("cwd is None", "self._cwd is None", "not cwd", "cwd == None"):
-                guarded = True
-        rep.check(guarded and u(n.value) == "os.getcwd()", R, ix.site(init, n), "`%s`: the process working directory is used only when no directory was given" % u(n),
-                  key="init|" + u(n))
+        def atom(node):
+            t = " ".join(u(node).split())
+            if isinstance(node, ast.Name) and node.id == "cwd":
+                return env.get("cwd", model)
+            if t == "self._cwd" and "self._cwd" in env:
+                return env["self._cwd"]
+            if t in ("os.getcwd()", "getcwd()", "os.path.abspath('.')", "os.path.abspath(os.curdir)", "os.curdir", "pathlib.Path.cwd()", "Path.cwd()"):
+                return "<process working directory>"
+            return AEval.NO
+
+        def run(stmts):
+            for s_ in stmts:
+                if isinstance(s_, ast.Assign) and len(s_.targets) == 1 and " ".join(u(s_.targets[0]).split()) in ("self._cwd", "cwd"):
+                    env[" ".join(u(s_.targets[0]).split())] = AEval(atom).ev(s_.value)
+                elif isinstance(s_, ast.If):
+                    ev = AEval(atom)
+                    run(s_.body if ev.truth(ev.ev(s_.test)) else s_.orelse)
+                elif isinstance(s_, (ast.For, ast.While, ast.Try, ast.With)) and any(isinstance(x, ast.Attribute) and x.attr == "_cwd" and isinstance(x.ctx, ast.Store) for x in ast.walk(s_)):
+                    raise Inconclusive("__init__: self._cwd is bound inside `%s`" % type(s_).__name__)
+        run(init.node.body)
+        return env.get("self._cwd", "<unbound>")
+    for model, want, what in (("<given directory>", "<given directory>", "a directory was given: includes are resolved against it"),
+                              (None, "<process working directory>", "no directory was given: the process working directory is used")):
+        try:
+            got = final_cwd(model)
+        except Inconclusive:
+            raise
+        except Exception as e_:
+            raise Inconclusive("__init__: binding of self._cwd not decided (%s)" % e_)
+        rep.check(got == want, R, ix.site(init), "self._cwd after construction - %s" % what, "it holds %s" % (got,), key="init|cwd|%s" % ("given" if model else "none"))
     # load / parse
     ld = ix.func("__init__.load")
     pc = calls(ld.node, lambda c: isinstance(c.func, ast.Name) and c.func.id == "parse")
